@@ -226,7 +226,7 @@ impl BuildJob<'_> {
             tmp_base_name.push(".redo.tmp");
             df.do_dir.join(tmp_base_name)
         };
-        helpers::unlink(&tmp_name).map_err(RedoError::opaque_error)?;
+        remove_tmp(&tmp_name).map_err(RedoError::opaque_error)?;
         let out_file = tempfile::tempfile().map_err(RedoError::opaque_error)?;
         helpers::close_on_exec(out_file.as_raw_fd(), true).map_err(RedoError::opaque_error)?;
         // this will run in the dofile's directory, so use only basenames here
@@ -568,7 +568,7 @@ impl BuildJob<'_> {
             // be some kind of two-stage commit, I guess.
             if st1.size() > 0 && st2.is_none() {
                 // script wrote to stdout.  Copy its contents to the tmpfile.
-                helpers::unlink(tmp_name)
+                remove_tmp(tmp_name.as_ref())
                     .expect("failed to remove old temp file before copying stdout");
                 match File::create(tmp_name) {
                     Err(e) => {
@@ -648,7 +648,9 @@ impl BuildJob<'_> {
         }
         // rv might have changed up above
         if rv != EXIT_SUCCESS {
-            helpers::unlink(tmp_name).expect("failed to remove temporary output file");
+            if let Err(e) = remove_tmp(tmp_name.as_ref()) {
+                log_err!("{:?}: remove {:?}: {}", t, tmp_name, e);
+            }
             if let Err(e) = sf.set_failed(ptx.state().env()) {
                 log_err!("{:?}: set failed: {}", t, e);
                 rv = EXIT_BUILD_JOB_ERROR;
@@ -983,6 +985,17 @@ where
                 next_bg = bg_stream.next();
             }
         }
+    }
+}
+
+/// Removes a temporary output ($3), whatever a script made of it: a file, a
+/// symbolic link or a directory.  A path that does not exist is fine.
+fn remove_tmp(path: &Path) -> io::Result<()> {
+    match path.symlink_metadata() {
+        Ok(m) if m.is_dir() => fs::remove_dir_all(path),
+        Ok(_) => fs::remove_file(path),
+        Err(e) if e.kind() == io::ErrorKind::NotFound => Ok(()),
+        Err(e) => Err(e),
     }
 }
 
